@@ -541,13 +541,31 @@ func checkC01(c *Ctx) {
 		for _, in := range instrsOf(f) {
 			if ta, isTA := in.(*ssa.TypeAssert); isTA && namedTypeIs(ta.AssertedType, "pkg/value", "Number") {
 				n++
-				if !ta.CommaOk {
+				if !assertIsTested(ta) {
 					ok = false
 				}
 			}
 		}
 		R.check(ok && n == 2, "C01.types", "pkg/exec."+fn, u.pos(f.Pos()), "both operands are tested to be numbers; otherwise an error", "operands are not both type-tested (non-number operands would panic or be accepted)")
 	}
+}
+
+// assertIsTested: a comma-ok assertion whose ok result is actually branched on
+func assertIsTested(ta *ssa.TypeAssert) bool {
+	if !ta.CommaOk {
+		return false
+	}
+	for _, r := range *ta.Referrers() {
+		if ex, ok := r.(*ssa.Extract); ok && ex.Index == 1 {
+			for _, rr := range *ex.Referrers() {
+				switch rr.(type) {
+				case *ssa.If, *ssa.UnOp, *ssa.BinOp, *ssa.Phi:
+					return true
+				}
+			}
+		}
+	}
+	return false
 }
 
 func isFloat(t types.Type) bool {
@@ -816,7 +834,7 @@ func checkLogicCombiner(c *Ctx, u *Universe, logicConsts map[string]int64) {
 		for _, in := range instrsOf(f) {
 			if ta, isTA := in.(*ssa.TypeAssert); isTA && namedTypeIs(ta.AssertedType, "pkg/value", "Bool") {
 				n++
-				if !ta.CommaOk {
+				if !assertIsTested(ta) {
 					ok = false
 				}
 			}
